@@ -426,6 +426,18 @@ impl Prop for SharedEngine {
         ensure!(observe(&engine) == before, "engine-mutated", "concurrent synthesis changed the engine's observable settings");
         // (d) different setter history, same final values
         let (mut other, _) = case_engine(c)?;
+        // every third case the history starts even earlier: the Condition object served ANOTHER voice
+        // (an LSP voice with stage 3, log gain, its own alpha) before it was loaded for this one
+        let reused_condition = c.jobs.len() % 3 == 0;
+        if reused_condition {
+            let prior = super::c01::prior_lsp_log_gain_set()?;
+            let mut cond = jbonsai::Condition::default();
+            if cond.load_model(&prior).is_err() || cond.load_model(&other.voices).is_err() {
+                fail!("load-model", "Condition::load_model failed on a valid voice");
+            }
+            *cond.get_interporation_weight_mut() = other.condition.get_interporation_weight().clone();
+            other = Engine::new(other.voices.clone(), cond);
+        }
         for op in &c.detour {
             apply_set(&mut other, op);
         }
@@ -519,6 +531,7 @@ impl Prop for SharedEngine {
         }
         let mut rep = Report::new();
         rep.class_if(wrote_back, "volume-reading-written-back");
+        rep.class_if(reused_condition, "condition-object-served-another-voice-before");
         let distinct = c.jobs.iter().map(|j| &j.labels).collect::<std::collections::HashSet<_>>().len();
         rep.nontrivial = c.jobs.len() >= 2 && distinct >= 2;
         rep.class(c.voice.class());
